@@ -27,12 +27,13 @@ SCORERS = [None, {"cls": "CUSUM"}, {"cls": "L2Cost"}, {"cls": "ChangeScore", "co
 def cases(draw, tier):
     sc = draw(st.sampled_from(SCORERS))
     p = draw(st.integers(1, 3))
+    bulk = None  # the bulk draws (table, data) come last: see strategies/data.py
+    unit = 1.0
     if sc == "table":
         bw = draw(st.integers(1, 3))
         n = draw(st.integers(2 * bw, 12))
-        m = (n + 1) ** 3
-        flat = draw(st.lists(st.integers(-1, 3), min_size=m, max_size=m))
-        sc = {"cls": "TableChangeScore", "table": np.asarray(flat).reshape(n + 1, n + 1, n + 1).tolist()}
+        bulk = "table"
+        sc = {"cls": "TableChangeScore", "table": None}
         X = [[0.0] * p for _ in range(n)]
     else:
         ms = 1 if sc == "function" else K.scorer_min_size(sc, p)
@@ -44,19 +45,28 @@ def cases(draw, tier):
                   "offset": draw(st.sampled_from([0, 0, 1, 2])), "ncols": draw(st.sampled_from([1, 1, 2, 3]))}
             X = [[0.0] * p for _ in range(n)]
         else:
-            X, _ = draw(D.structured_matrix(n, p, boundary_positions=(bw, n - bw)))
+            bulk = "matrix"
             unit = draw(st.sampled_from([1.0, 1.0, 1.0, 1e-3, 1e-6, 1e3]))
-            if unit != 1.0:
-                X = [[v * unit for v in row] for row in X]
     mdi = draw(st.integers(1, int(max(1, bw / 2 - 1))))
     scale = draw(st.sampled_from([0.3, 1.0, 0.0, 2.0, None]))
     if isinstance(sc, dict) and sc["cls"] in ("TableChangeScore", "FunctionChangeScore") and scale is not None:
         scale = draw(st.sampled_from([0.2, 0.0, 0.05, 0.4, 0.8]))
+    level = draw(K.level_strategy)
+    want_int64 = draw(st.booleans())
+    n_train = draw(st.sampled_from([None, None, "shorter", "longer", "same_buffer"]))
+    if bulk == "table":
+        m = (n + 1) ** 3
+        flat = draw(st.lists(st.integers(-1, 3), min_size=m, max_size=m))
+        sc["table"] = np.asarray(flat).reshape(n + 1, n + 1, n + 1).tolist()
+    elif bulk == "matrix":
+        X, _ = draw(D.structured_matrix(n, p, boundary_positions=(bw, n - bw)))
+        if unit != 1.0:
+            X = [[v * unit for v in row] for row in X]
     integral = all(float(v).is_integer() for row in X for v in row)
-    return {"params": {"change_score": sc, "bandwidth": bw, "threshold_scale": scale, "level": draw(K.level_strategy),
+    return {"params": {"change_score": sc, "bandwidth": bw, "threshold_scale": scale, "level": level,
                        "min_detection_interval": mdi}, "X": X,
-            "as_int64": integral and draw(st.booleans()),
-            "n_train": draw(st.sampled_from([None, None, "shorter", "longer", "same_buffer"]))}
+            "as_int64": integral and want_int64,
+            "n_train": n_train}
 
 
 def model_scores(params, X):
@@ -156,10 +166,11 @@ def reversal_cases(draw, tier):
     p = draw(st.integers(1, 3))
     bw = draw(st.integers(1, 8))
     n = draw(st.integers(2 * bw, 60))
-    X, _ = draw(D.structured_matrix(n, p, exact=False, min_noise_scale=1e-2, boundary_positions=(bw, n - bw)))
     mdi = draw(st.integers(1, int(max(1, bw / 2 - 1))))
-    return {"params": {"change_score": sc, "bandwidth": bw, "threshold_scale": draw(st.sampled_from([0.5, 1.0, 0.1, 2.0, None])),
-                       "level": draw(st.sampled_from([0.1, 0.3, 0.01])), "min_detection_interval": mdi}, "X": X}
+    params = {"change_score": sc, "bandwidth": bw, "threshold_scale": draw(st.sampled_from([0.5, 1.0, 0.1, 2.0, None])),
+              "level": draw(st.sampled_from([0.1, 0.3, 0.01])), "min_detection_interval": mdi}
+    X, _ = draw(D.structured_matrix(n, p, exact=False, min_noise_scale=1e-2, boundary_positions=(bw, n - bw)))  # bulk data last
+    return {"params": params, "X": X}
 
 
 def check_reversal(case):
